@@ -149,7 +149,11 @@ func (e *Encoder) writeObject(data interface{}) (int, error) {
 	clsName, ok := e.nameMap[typ.Name()]
 	if !ok {
 		clsName = typ.Name()
-		e.nameMap[clsName] = clsName
+		if clsName != "" {
+			// (a struct type without a name is not entered: under the key "" every unnamed
+			// map written afterwards would be taken for a typed one)
+			e.nameMap[clsName] = clsName
+		}
 	}
 	length, ok := e.existClassDef(clsName)
 	if !ok {
